@@ -20,6 +20,7 @@ Oracles report a failure with ctx.violation(signature, detail, case): signatures
 continues); everything else raises Violation, which Hypothesis shrinks; the runner keeps the
 case of the last (minimal) failing execution and writes it as a plain JSON replay file.
 """
+import functools
 import hashlib
 import importlib
 import json
@@ -119,8 +120,16 @@ class Ctx(object):
         import hypothesis
 
         def deco(fn):
+            @functools.wraps(fn)
+            def body(*a, **k):
+                try:
+                    return fn(*a, **k)
+                except Exception:
+                    # whatever fails, the shard budget no longer applies: Hypothesis must be able to replay and shrink it
+                    self.failed = True
+                    raise
             return hypothesis.seed(self.hseed(salt, fn.__name__))(
-                self.settings(max_examples, **kw)(hypothesis.given(*strategies)(fn)))
+                self.settings(max_examples, **kw)(hypothesis.given(*strategies)(body)))
         return deco
 
     # ---- accounting ------------------------------------------------------------
@@ -194,6 +203,31 @@ def load_prop(prop_id):
     return importlib.import_module("vp.props.%s" % prop_id.lower())
 
 
+def library_failure(e, case):
+    """An ordinary exception that escapes into the harness from inside the library (innermost traceback frame under
+    <repo>/mpgameserver) while the harness uses the library the way the property's domain says it may be used: the
+    clean tree never does that (every check exits 0 there), so it is reported as a violation, not as a harness error.
+    Exceptions raised in harness frames (renamed internals, harness bugs) stay harness errors."""
+    if not isinstance(e, Exception) or isinstance(e, (MemoryError, HarnessError)):
+        return None
+    tb = e.__traceback__
+    last = None
+    while tb is not None:
+        last = tb
+        tb = tb.tb_next
+    if last is None:
+        return None
+    fn = os.path.realpath(last.tb_frame.f_code.co_filename)
+    lib = os.path.join(os.path.realpath(os.environ.get("VERIF_REPO", "/repo")), "mpgameserver") + os.sep
+    if not fn.startswith(lib):
+        return None
+    where = "%s:%s" % (os.path.basename(fn), last.tb_frame.f_code.co_name)
+    return {"signature": "library-raised:%s:%s" % (e.__class__.__name__, where),
+            "detail": "the library raised %s(%s) at %s line %d into the harness; on the unchanged tree this use of the library never raises"
+                      % (e.__class__.__name__, str(e)[:200], where, last.tb_lineno),
+            "case": jsonable(case)}
+
+
 def run_with_hypothesis(fn, ctx):
     """Run a hypothesis test function (or any callable); convert the outcome to a failure record
     or None.  The last failing execution is the minimal one, so ctx.last_case is what is saved."""
@@ -208,6 +242,10 @@ def run_with_hypothesis(fn, ctx):
         tb = traceback.format_exc()
         if e.__class__.__name__ in ("FailedHealthCheck", "Unsatisfiable", "InvalidArgument", "Flaky", "FlakyFailure"):
             raise HarnessError("hypothesis: %s\n%s" % (e, tb))
+        lf = library_failure(e, ctx.last_case)
+        if lf is not None:
+            ctx.failed = True
+            return lf
         raise HarnessError("unexpected %s: %s\n%s" % (e.__class__.__name__, e, tb))
     return None
 
@@ -262,6 +300,13 @@ def main(argv=None):
     try:
         mod = load_prop(prop_id)
     except BaseException as e:  # noqa
+        lf = library_failure(e, {"part": "import", "what": "defining the harness's own Serializable / Resource / handler classes and importing the library"})
+        if lf is not None:
+            # e.g. a metaclass that refuses a class definition the unchanged library accepts
+            path = write_failure(prop_id, lf)
+            print("  signature=%s\n  %s" % (lf["signature"], lf["detail"]))
+            print("VIOLATION property=%s replay=%s  (signature=%s)" % (prop_id, path, lf["signature"]))
+            return 1
         print("HARNESS-ERROR: cannot load %s: %s" % (prop_id, e))
         traceback.print_exc()
         return 2
